@@ -140,11 +140,119 @@ Proof.
     destruct (nth_error_nth' _ (0%Z, 0%Z) _ _ H) as [E' _].
     pose proof (upd_nth_split pos z l' Hp) as U. pose proof (nth_split' pos (0%Z, 0%Z) l' Hp) as V.
     rewrite E' in V.
-    remember (firstn pos l') as a. remember (skipn (S pos) l') as b.
-    rewrite U. rewrite V at 2. rewrite <- app_assoc. simpl.
+    set (a := firstn pos l') in *. set (b := skipn (S pos) l') in *.
+    rewrite U. clear U. rewrite V at 1. rewrite <- app_assoc. simpl.
     apply Permutation_cons_app. apply Permutation_app_head. apply Permutation_cons_append.
 Qed.
 
 Lemma bremove_length pos (l : list item) x : nth_error l pos = Some x -> S (length (bremove pos l)) = length l.
 Proof. intros H. apply bremove_perm in H. apply Permutation_length in H. exact H. Qed.
 
+
+Lemma NoDup_app_inv {A} (l l' : list A) : NoDup (l ++ l') -> NoDup l /\ NoDup l' /\ (forall x, In x l -> In x l' -> False).
+Proof.
+  induction l; simpl; intros H.
+  - split; [constructor|]. split; auto.
+  - inversion H as [|? ? Hn H']; subst. destruct (IHl H') as [A1 [A2 A3]].
+    split; [constructor; auto; intro; apply Hn; apply in_or_app; auto|]. split; auto.
+    intros x [E|E] Hx; [subst; apply Hn; apply in_or_app; auto|eauto].
+Qed.
+
+Lemma NoDup_app_intro {A} (l l' : list A) : NoDup l -> NoDup l' -> (forall x, In x l -> In x l' -> False) -> NoDup (l ++ l').
+Proof.
+  induction l; simpl; intros H1 H2 H3; auto.
+  inversion H1; subst. constructor.
+  - intro Hin. apply in_app_or in Hin. destruct Hin; [auto|eapply H3; eauto].
+  - apply IHl; auto. intros; eapply H3; eauto.
+Qed.
+
+Lemma Permutation_filter {A} (f : A -> bool) l l' : Permutation l l' -> Permutation (filter f l) (filter f l').
+Proof.
+  induction 1; simpl; auto.
+  - destruct (f x); auto.
+  - destruct (f x), (f y); auto. apply perm_swap.
+  - eapply Permutation_trans; eauto.
+Qed.
+
+Lemma filter_all {A} (f : A -> bool) l : (forall x, In x l -> f x = true) -> filter f l = l.
+Proof. induction l; simpl; intros H; auto. rewrite (H a) by auto. f_equal. apply IHl. auto. Qed.
+
+Lemma NoDup_app_drop_mid {A} (x y z : list A) : NoDup (x ++ y ++ z) -> NoDup (x ++ z).
+Proof.
+  intros H. destruct (NoDup_app_inv _ _ H) as [H1 [H2 H3]]. destruct (NoDup_app_inv _ _ H2) as [H4 [H5 H6]].
+  apply NoDup_app_intro; auto. intros a Ha Hz. apply (H3 a Ha). apply in_or_app; auto.
+Qed.
+
+Lemma NoDup_app_tail {A} (x y : list A) : NoDup (x ++ y) -> NoDup y.
+Proof. intros H. apply (NoDup_app_inv _ _ H). Qed.
+
+Lemma NoDup_app_head {A} (x y : list A) : NoDup (x ++ y) -> NoDup x.
+Proof. intros H. apply (NoDup_app_inv _ _ H). Qed.
+
+Lemma NoDup_keys_perm (l l' : list item) : Permutation l l' -> NoDup (map fst l) -> NoDup (map fst l').
+Proof. intros P H. eapply Permutation_NoDup; [|exact H]. apply Permutation_map. exact P. Qed.
+
+Lemma Forall2_nth {A C} (R : A -> C -> Prop) l l' : Forall2 R l l' ->
+  length l = length l' /\ forall n d d', (n < length l)%nat -> R (nth n l d) (nth n l' d').
+Proof.
+  induction 1; simpl; [split; auto; intros; lia|].
+  destruct IHForall2 as [E F]. split; [lia|]. intros n d d' Hn. destruct n; auto. apply F. lia.
+Qed.
+
+Lemma flat_map_rev_perm {A C} (f : A -> list C) l : Permutation (flat_map (fun a => rev (f a)) l) (flat_map f l).
+Proof. induction l; simpl; auto. apply Permutation_app; auto. apply Permutation_sym, Permutation_rev. Qed.
+
+Lemma flat_map_perm_pointwise {A C} (f g : A -> list C) l : (forall a, Permutation (f a) (g a)) -> Permutation (flat_map f l) (flat_map g l).
+Proof. intros H. induction l; simpl; auto. apply Permutation_app; auto. Qed.
+
+(* ---- Remove(filter): the iterator loop inside one bucket ---- *)
+Lemma upd_nth_app_mid {A} (f : list A) x z b : upd_nth (length f) z (f ++ x :: b) = f ++ z :: b.
+Proof. induction f; simpl; auto. f_equal. auto. Qed.
+
+Lemma bremove_last (l : list item) x : bremove (length l) (l ++ [x]) = l.
+Proof. unfold bremove. rewrite rev_app_distr. simpl. rewrite removelast_last. rewrite Nat.eqb_refl. reflexivity. Qed.
+
+Lemma bremove_mid (f : list item) x back z : bremove (length f) (f ++ x :: back ++ [z]) = f ++ z :: back.
+Proof.
+  unfold bremove. replace (f ++ x :: back ++ [z]) with ((f ++ x :: back) ++ [z]) by (rewrite <- app_assoc; reflexivity).
+  rewrite rev_app_distr. simpl. rewrite removelast_last.
+  destruct (Nat.eqb_spec (length f) (length (f ++ x :: back))) as [E|E].
+  - rewrite app_length in E. simpl in E. lia.
+  - apply upd_nth_app_mid.
+Qed.
+
+Lemma nth_app_mid {A} (f : list A) x b d : nth (length f) (f ++ x :: b) d = x.
+Proof. induction f; simpl; auto. Qed.
+
+Definition negp (p : item -> bool) (x : item) : bool := negb (p x).
+
+Lemma brem_if_spec p : forall n front back c l' c',
+  length front = n -> Forall (fun x => p x = false) back ->
+  brem_if p n (front ++ back) c = (l', c') ->
+  Permutation l' (filter (negp p) front ++ back) /\
+  c' = (c + Z.of_nat (length front) - Z.of_nat (length (filter (negp p) front)))%Z.
+Proof.
+  induction n; intros front back c l' c' Hl Hb H.
+  - destruct front; [|discriminate]. simpl in *. inversion H; subst. split; auto. lia.
+  - destruct (exists_last (l:=front)) as [f' [x Ef]]; [intro; subst; discriminate|]. subst front.
+    rewrite app_length in Hl. simpl in Hl. assert (Hn : length f' = n) by lia. clear Hl.
+    simpl in H. rewrite <- app_assoc in H. simpl in H.
+    rewrite filter_app, !app_length. simpl. unfold negp at 2 4.
+    destruct (p x) eqn:Px; simpl.
+    + destruct (exists_last_or_nil back) as [Eb|[back' [z Eb]]]; subst back.
+      * rewrite bremove_last in H. rewrite <- (app_nil_r f') in H.
+        destruct (IHn f' [] _ _ _ Hn (Forall_nil _) H) as [P C]. split.
+        -- rewrite !app_nil_r in *. exact P.
+        -- lia.
+      * rewrite bremove_mid in H.
+        assert (Hb' : Forall (fun x => p x = false) (z :: back')).
+        { rewrite Forall_forall in *. intros y [Hy|Hy]; apply Hb; apply in_or_app; [right; left; auto|left; auto]. }
+        destruct (IHn f' (z :: back') _ _ _ Hn Hb' H) as [P C]. split.
+        -- rewrite P. rewrite app_nil_r. apply Permutation_app_head. apply Permutation_cons_append.
+        -- lia.
+    + assert (Hb' : Forall (fun x => p x = false) (x :: back)) by (constructor; auto).
+      rewrite Hn in H.
+      destruct (IHn f' (x :: back) _ _ _ Hn Hb' H) as [P C]. split.
+      * rewrite P. rewrite <- app_assoc. reflexivity.
+      * lia.
+Qed.
